@@ -48,7 +48,9 @@ def main():
                 continue
             d = os.path.join(base, "v%d" % n)
             os.makedirs(d)
-            open(os.path.join(d, "in.bin"), "wb").write(data)
+            # one-byte chunks at the highest compression levels cost tens of milliseconds each: a short input keeps such a vector within its time limit
+            tiny = o["alg"] == "Fixed" and o["fixed"]["big"] == 0 and o["fixed"]["n"] <= 1
+            open(os.path.join(d, "in.bin"), "wb").write(data[:300] if tiny else data)
             cmd = [a.bita, "compress", "-i", "in.bin", "out.cba", "--hash-length", str(o["hash_len"]), "--compression", o["ctype"], "--compression-level", str(o["level"])]
             if o["alg"] == "Fixed":
                 cmd += ["--fixed-size", o["fixed"]["txt"]]
